@@ -72,3 +72,9 @@ add("C19", "fault_enumeration",
     "For every corpus (1-3 fractions, active/sealed, one with a document re-delivered into a second fraction) and every request kind (plain, histogram, five aggregation kinds, both orders) the async search's result at Done must equal Searcher.SearchDocs with the same parameters; then the store is restarted from every crash state of the journal of .info/.qpr atomic writes (every prefix, torn temp files): the search must resume and end with that same result, or be unknown if the crash precedes the return of StartSearch. Found and repaired: result merge with a hard-coded histogram interval (corrupt histogram / nil-map panic with a re-delivered document).",
     "Trusted: persistence Model A for the async data dir; fractions are not deleted between start and restart. A resumed search that never finishes is reported only after two runs with a 3 s and a 30 s horizon.",
     "DESIGN.md §3 C19", "E2-vos")
+
+add("C18", "model_checking",
+    "explicit-state BFS over cache/cleaner operation sequences on the real code (replay + 1 op, canonical-state dedup, invariant in every state) and exhaustive thread interleavings under a cooperative scheduler with iterative preemption bounding (unbounded in thorough)",
+    "The cache package is rebuilt against a sync shim whose lock/waitgroup operations are scheduling points. (a) From one cleaner and one cache, every sequence of get / failing get / panicking get / Rotate / Cleanup / CleanEmptyGenerations / ReleaseBuckets / Release / NewCache up to depth 5 (thorough 7) is explored breadth-first on the real objects with canonical-state de-duplication, checking in every state: returned value = loader value, failures reported and not poisoning, accounted size = sum of live entries, every live cache managed, size under the limit right after Cleanup. (b) Five three-thread scenarios (same key twice, failing, panicking, release, in-flight load while its generation is dropped) with a cleaner pass are explored over all interleavings with <=3 preemptions (thorough: all interleavings, 3.4M schedules) and judged at quiescence. Found and repaired: ReleaseBuckets dropping a live cache; in-flight load accounted to a dropped generation.",
+    "Trusted: scheduling points are lock / rwlock / waitgroup / once operations plus one point inside each loader; atomics and channel operations are not permuted; unsynchronised accesses would need the race detector (not part of this check).",
+    "DESIGN.md §3 C18", "E1-vsched")
